@@ -216,7 +216,12 @@ def mock_metadata_stims(seed, tier):
                         headers = [{'n': 'content-type', 'v': list(b'application/grpc')}] + wire(hmeta, pad)
                         trailers = [{'n': 'grpc-status', 'v': list(str(ts).encode())}] + wire(tmeta, pad)
                         if ts:
-                            trailers.insert(1, {'n': 'grpc-message', 'v': list(b'from trailers')})
+                            # (every other error status is one whose message does not percent-decode to UTF-8, or whose details are not
+                            # base64: the status degrades to an error about that, the entries travelling with it are still entries)
+                            bad = ('', 'message', 'details')[len(out) % 4 % 3] if not oversize else ''
+                            trailers.insert(1, {'n': 'grpc-message', 'v': list(b'caf%FF%FE' if bad == 'message' else b'from trailers')})
+                            if bad == 'details':
+                                trailers.insert(2, {'n': 'grpc-status-details-bin', 'v': list(b'*not-base64*')})
                         out.append({'mode': 'mock', 'class': 'mock_metadata', 'transport': 'mock', 'shim': {'cap': 0, 'rq': 0, 'wq': 0, 'pend': 0}, 'shape': shape,
                                     'server': {'send': [], 'accept': [], 'max_dec': -1, 'max_enc': -1},
                                     'client': {'send': '', 'accept': [], 'max_dec': 64 if oversize else -1, 'max_enc': -1},
